@@ -194,6 +194,7 @@ pub struct ChildResult {
 
 /// Re-run the current executable as `<exe> --child <case>` and collect its trace.
 pub fn run_child(case: &str, wall_timeout: Duration) -> ChildResult {
+    let wall_timeout = wall_timeout * crate::slow_factor();
     let exe = std::env::current_exe().unwrap();
     let mut cmd = std::process::Command::new(exe);
     cmd.arg("--child").arg(case).stdout(std::process::Stdio::piped()).stderr(std::process::Stdio::piped()).stdin(std::process::Stdio::null());
